@@ -313,7 +313,7 @@ pub fn history_alphabet(cloneable: bool, resizable: bool) -> Vec<Edge> {
 pub fn histories(r: &dyn Runner, tier: Tier, st: &St, out: &mut Vec<Edge>) {
     if st.len != 0 { return; }
     let n = history_alphabet(r.cloneable(), r.resizable()).len() as u8;
-    let depth4 = tier == Tier::Thorough && st.cap <= 2;
+    let depth4 = tier == Tier::Thorough && st.cap <= 2 && st.spare == Spare::Pristine;
     for a in 0..n { for b in 0..n { for c in 0..n {
         if depth4 { for d in 0..n { out.push(Edge::History { a, b, c, d }); } } else { out.push(Edge::History { a, b, c, d: u8::MAX }); }
     } } }
@@ -336,8 +336,36 @@ fn movers(out: &mut Vec<Edge>) {
     out.push(Edge::Pop(Api::Typed, Sink::Downcast));
 }
 
+/// edges from a wide state (len beyond the bound): every index for the shifting operations, boundary ranges for drain / splice
+pub fn wide_edges(_r: &dyn Runner, st: &St, with_ranges: bool, out: &mut Vec<Edge>) {
+    let len = st.len as usize;
+    for i in 0..=len as u8 {
+        for s in [Src::R, Src::UT, Src::W, Src::BPop] { out.push(Edge::Insert(Api::Erased, i, s)); }
+        out.push(Edge::Insert(Api::Typed, i, Src::W));
+    }
+    for i in 0..len as u8 {
+        for k in [Sink::Drop, Sink::Downcast] { out.push(Edge::Remove(Api::Erased, i, k)); out.push(Edge::SwapRemove(Api::Erased, i, k)); }
+        out.push(Edge::Remove(Api::Typed, i, Sink::Downcast));
+    }
+    if with_ranges {
+        let pts = [0, 1, len / 2, len - 1, len];
+        for &a in &pts { for &b in &pts { if a <= b {
+            for pat in [Pat::none(), Pat { n: 1, bits: 1 }, Pat { n: 2, bits: 0b10 }] {
+                for api in [Api::Erased, Api::Typed] {
+                    out.push(Edge::Drain { api, a: a as u8, b: b as u8, form: Form::Excl, pat, sink: Sink::Downcast });
+                    for rn in [0u8, 1, 3] { out.push(Edge::Splice { api, a: a as u8, b: b as u8, form: Form::Excl, pat, sink: Sink::Downcast, rn, rsrc: if api == Api::Erased { RSrc::R } else { RSrc::W }, lie: 0 }); }
+                }
+            }
+        } } }
+    }
+}
+
 pub fn edges_for(prop: Prop, tier: Tier, r: &dyn Runner, st: &St) -> Vec<Edge> {
     let mut v = Vec::new();
+    if st.len as usize > bounds(prop, tier).lmax && r.fixed_cap().is_none() {
+        wide_edges(r, st, prop != Prop::C01, &mut v);
+        return v;
+    }
     match prop {
         Prop::C01 => { elementwise(r, tier, st, &mut v); histories(r, tier, st, &mut v); }
         Prop::C02 => { ranges(r, tier, st, true, &mut v); adaptors(r, tier, st, true, &mut v); v.push(Edge::Push(Api::Typed, Src::W)); v.push(Edge::Pop(Api::Typed, Sink::Downcast)); }
